@@ -194,7 +194,7 @@ theorem verStep_twice (n pid : Nat) (v : Verifier F) (od od2 : OuterDeal F) (h :
 
 /-! ### two steps on different verifiers commute -/
 
-theorem getElem?_set_ne' {α : Type} (l : List α) (a b : Nat) (x : α) (h : a ≠ b) : (l.set a x)[b]? = l[b]? := by
+theorem getElem_opt_set_ne {α : Type} (l : List α) (a b : Nat) (x : α) (h : a ≠ b) : (l.set a x)[b]? = l[b]? := by
   simp [List.getElem?_set, h]
 
 theorem step1_comm {i i1 i2 : Inst F K} {a b : OuterDeal F} (h1 : step1 i a = some i1) (h2 : step1 i1 b = some i2) :
@@ -225,7 +225,7 @@ theorem step1_comm {i i1 i2 : Inst F K} {a b : OuterDeal F} (h1 : step1 i a = so
   have hvb0 : i.vers[b.idx]? = some vb := by
     rw [hi1] at hvb
     simp only at hvb
-    rw [getElem?_set_ne' _ _ _ _ hne] at hvb
+    rw [getElem_opt_set_ne _ _ _ _ hne] at hvb
     exact hvb
   have hcb0 : dealCommitsOk i b = true := by
     rw [← dealCommitsOk_frame hf1 b]; exact hcb
@@ -236,7 +236,7 @@ theorem step1_comm {i i1 i2 : Inst F K} {a b : OuterDeal F} (h1 : step1 i a = so
   refine ⟨j1, hj1, ?_⟩
   have hva1 : j1.vers[a.idx]? = some va := by
     show (i.vers.set b.idx _)[a.idx]? = some va
-    rw [getElem?_set_ne' _ _ _ _ (Ne.symm hne)]; exact hva
+    rw [getElem_opt_set_ne _ _ _ _ (Ne.symm hne)]; exact hva
   have hca1 : dealCommitsOk j1 a = true := by
     rw [dealCommitsOk_frame (i := i) (j := j1) ⟨rfl, rfl, rfl, rfl⟩ a]; exact hca
   have := step1_of (i := j1) (od := a) (v := va) ha1 hsa hva1 hra hca1
